@@ -212,6 +212,17 @@ func oracleC03Tree(p *Pair, env *Env, a [][]byte) *Failure {
 			}
 		}
 	}
+	// logging goes to stderr: the same stdout and exit status whatever the log level
+	for _, argv := range readers[:4] {
+		ref := runCLI(env, sb, nil, append([]string{"-l", "disabled"}, argv...)...)
+		for _, lv := range [][]string{{}, {"-l", "trace"}, {"-l", "error"}} {
+			c := runCLI(env, sb, nil, append(append([]string{}, lv...), argv...)...)
+			if c.exit != ref.exit || !bytes.Equal(c.stdout, ref.stdout) {
+				return &Failure{What: "stdout or exit status depends on the log level: " + strings.Join(append(lv, argv...), " "),
+					Detail: fmt.Sprintf("-l disabled: exit %d %q\nthis run: exit %d %q", ref.exit, ref.stdout, c.exit, c.stdout)}
+			}
+		}
+	}
 	for _, argv := range writers {
 		var first cliResult
 		var firstSnap map[string]string
